@@ -541,3 +541,29 @@ seed("c10-gp-guard-dropped", "C10", PM, """            let dx = if f64::max( abp
                 Cmplx::polar( 1.0 + abx, iter as f64 )
             };""", """            let dx = Cmplx::new( m as f64, 0.0 ) / gp;""", "divisors/laguer")
 seed("c10-refine-imag-flag", "C10", PM, "        Polynomial::<Cmplx>::poly_solve( coeffs, refine )\n    }\n}\n\nimpl Polynomial<Cmplx> {", "        Polynomial::<Cmplx>::poly_solve( coeffs, !refine )\n    }\n}\n\nimpl Polynomial<Cmplx> {", "entry/f64")
+
+# ---------------------------------------------------------------- C11 / C12
+PA = "src/polynomial/arithmetic.rs"
+seed("c11-sub-shortcut-sign", "C11", PA, "Err( _ ) => { return - minus.clone(); },", "Err( _ ) => { return minus.clone(); },", "polarity/Sub/empty-operands")
+seed("c11-mul-index-shift", "C11", PA, "product.coeffs[ i + j ] = product.coeffs[ i + j ] + self.coeffs[ i ].clone() * times.coeffs[ j ].clone();",
+     "product.coeffs[ i + j ] = product.coeffs[ i + j ] + self.coeffs[ i ].clone() * times.coeffs[ i ].clone();", "graded-product")
+seed("c11-derivative-count", "C11", PM, "            for _ in 0..=i {\n                p.coeffs[ i ] = p.coeffs[ i ] + self.coeffs[ i + 1 ].clone();", "            for _ in 0..i {\n                p.coeffs[ i ] = p.coeffs[ i ] + self.coeffs[ i + 1 ].clone();", "derivative")
+seed("c11-horner-ascending", "C11", PM, "        for i in (0..degree).rev() {\n            p = p * x + self.coeffs[ i ];", "        for i in 0..degree {\n            p = p * x + self.coeffs[ i ];", "horner")
+seed("c11-sub-adds-rhs", "C11", PA, "diff.coeffs[ i ] = diff.coeffs[ i ] - minus.coeffs[ i ].clone();", "diff.coeffs[ i ] = diff.coeffs[ i ] + minus.coeffs[ i ].clone();", "polarity/Sub")
+seed("c11-add-guard-other-degree", "C11", PA, """            if i <= plus.degree().unwrap() {
+                sum.coeffs[ i ] = sum.coeffs[ i ] + plus.coeffs[ i ].clone();""", """            if i <= self.degree().unwrap() {
+                sum.coeffs[ i ] = sum.coeffs[ i ] + plus.coeffs[ i ].clone();""", "length/Add")
+seed("c11-add-no-max", "C11", PA, "        if degree < plus_degree { degree = plus_degree; }\n", "", "length/Add")
+seed("c11-neg-identity", "C11", PA, "neg.coeffs = self.coeffs.iter().map( |x| -x.clone() ).collect();", "neg.coeffs = self.coeffs.iter().map( |x| x.clone() ).collect();", "polarity/Neg")
+seed("c11-trim-interior", "C11", PM, "while self.coeffs[ i ] == T::zero() && i > 0 {", "while self.coeffs[ 0 ] == T::zero() && i > 0 {", "trim")
+seed("c11-iszero-inverted", "C11", PM, "if self.coeffs[ i ] != T::zero() { return false; }", "if self.coeffs[ i ] == T::zero() { return false; }", "is_zero")
+seed("c11-derivative-n-off", "C11", PM, "        for _ in 0..n {\n            p = p.derivative();", "        for _ in 0..=n {\n            p = p.derivative();", "derivative_n")
+seed("c11-consuming-sub", "C11", PA, "        &self - &minus\n", "        &minus - &self\n", "delegation")
+seed("c12-add-not-sub", "C12", PA, "            r = r - ( t * v.clone() );", "            r = r + ( t * v.clone() );", "update-pair")
+seed("c12-count-dropped", "C12", PA, "            count += 1;\n", "", "no-spin")
+seed("c12-zero-check-removed", "C12", PA, '        if v.is_zero() { return Err( "Polynomial.polydiv() divide by zero polynomial" ); }\n', "", "zero-divisor/all-zero")
+seed("c12-term-index", "C12", PA, "t.coeffs[ r.degree()? - v.degree()? ] = r.coeffs[ r.degree()? ] / v.coeffs[ v.degree()? ];", "t.coeffs[ r.degree()? - v.degree()? ] = r.coeffs[ r.degree()? ] / v.coeffs[ 0 ];", "term")
+seed("c12-term-inverted", "C12", PA, "t.coeffs[ r.degree()? - v.degree()? ] = r.coeffs[ r.degree()? ] / v.coeffs[ v.degree()? ];", "t.coeffs[ r.degree()? - v.degree()? ] = v.coeffs[ v.degree()? ] / r.coeffs[ r.degree()? ];", "term")
+seed("c12-exit-strict", "C12", PA, "while !r.is_zero() && r.degree()? >= v.degree()? {", "while !r.is_zero() && r.degree()? > v.degree()? {", "exit")
+seed("c12-result-swapped", "C12", PA, "        Ok( ( q ,r ) )", "        Ok( ( r ,q ) )", "exit")
+seed("c12-q-sub", "C12", PA, "            q = q + t.clone();", "            q = q.clone() + t.clone() + t.clone();", "update-pair")
